@@ -648,5 +648,29 @@ def run_C19(R):
                 R.check('C19.spacing', {'s': s, 'expect': [('a', ':instance', tgt), ('a', ':ARG0', 'c')]})
 
 
+def run_C19_mixed(R):
+    """the documented spacing variants mixed within one conjunction: every conjunction sign and every comma
+    of a text of 2-5 triples takes its variant independently"""
+    conjs = ['^', ' ^', ' ^ ', '^ ', ' ^\n', '\n^ ']
+    commas = [',', ', ', ' ,', ' , ']
+    for it in range(600 if R.quick else 8000):
+        n = R.rnd.randint(2, 5)
+        ts = [(R.rnd.choice(['a', 'b1', 'x-y']), R.rnd.choice(['ARG1', 'instance', 'mod', 'op2', 'a']),
+               R.rnd.choice(['c', 'd2', '"q, r"', '-1.5', '"(^)"'])) for _ in range(n)]
+        parts = ['%s(%s%s%s)' % (r, s_, R.rnd.choice(commas), t) for s_, r, t in ts]
+        text = parts[0]
+        for p in parts[1:]:
+            text += R.rnd.choice(conjs) + p
+        R.check('C19.spacing', {'s': text, 'expect': [(s_, ':' + r, t) for s_, r, t in ts]})
+
+
+_run_C19_base = run_C19
+
+
+def run_C19(R):
+    _run_C19_base(R)
+    run_C19_mixed(R)
+
+
 RUNNERS = {'C01': run_C01, 'C07': run_C07, 'C08': run_C08, 'C09': run_C09,
            'C18': run_C18, 'C19': run_C19}
